@@ -43,9 +43,25 @@ class MyErr(ValueError):
     pass
 
 
+import abc as _abc
+import collections as _collections
+
+
+class AbcErr(Exception, metaclass=_abc.ABCMeta):
+    """An exception base class whose metaclass is not `type` (a class all the same)."""
+
+
+class AbcChild(AbcErr):
+    pass
+
+
+ExcPair = _collections.namedtuple("ExcPair", "first second")   # a tuple (subclass) of exception types
+
+
 EXC_TYPES = {"ValueError": ValueError, "KeyError": KeyError, "RuntimeError": RuntimeError,
              "MyErr": MyErr, "KeyboardInterrupt": KeyboardInterrupt, "SystemExit": SystemExit,
-             "Exception": Exception, "LookupError": LookupError, "GeneratorExit": GeneratorExit}
+             "Exception": Exception, "LookupError": LookupError, "GeneratorExit": GeneratorExit,
+             "AbcErr": AbcErr, "AbcChild": AbcChild}
 WARN_TYPES = {"DeprecationWarning": DeprecationWarning, "UserWarning": UserWarning,
               "RuntimeWarning": RuntimeWarning}
 TYPES = {"int": int, "str": str, "bytes": bytes, "list": list, "dict": dict, "bool": bool,
@@ -131,6 +147,11 @@ PATH_NAMES = ["file_a", "file_e", "file_m", "dir_d", "dir_empty", "link_a", "t.t
 
 def mkvalue(v, env):
     kind = v[0]
+    if kind == "dict" and len(v) > 2:
+        # dict subclasses that answer [] for absent keys (Counter: 0; defaultdict: inserts the default)
+        if v[2] == "counter":
+            return _collections.Counter(v[1])
+        return _collections.defaultdict(int, v[1])
     if kind in ("int", "str", "list", "dict", "lstr"):
         import copy
         return copy.deepcopy(v[1])
@@ -251,6 +272,8 @@ def build(e, env):
             return M.MatchesException(EXC_TYPES[how[1]])
         if how[0] == "types":
             return M.MatchesException(tuple(EXC_TYPES[t] for t in how[1]))
+        if how[0] == "types_nt":
+            return M.MatchesException(ExcPair(*[EXC_TYPES[t] for t in how[1]]))
         if how[0] == "instance":
             return M.MatchesException(EXC_TYPES[how[1]](*how[2]))
         if how[0] == "type_re":
@@ -384,7 +407,7 @@ def sem(e, v, env, raw=None):
         etype, evalue = v[0], v[1]
         if how[0] == "type":
             return issubclass(etype, EXC_TYPES[how[1]])
-        if how[0] == "types":
+        if how[0] in ("types", "types_nt"):
             return issubclass(etype, tuple(EXC_TYPES[t] for t in how[1]))
         if how[0] == "instance":
             return issubclass(etype, EXC_TYPES[how[1]]) and evalue.args == tuple(how[2])
@@ -464,9 +487,10 @@ DICT_POOL = [{}, {"a": 1}, {"a": 2}, {"a": 1, "b": 2}, {"b": 2}, {"a": 0, "b": 0
 OBJ_POOL = [{"a": 1, "b": 2, "s": "ab"}, {"a": 0, "b": 0, "s": ""}, {"a": -1, "b": 5, "s": "\xe9"},
             {"a": 2, "b": 2, "s": "a\nb"}]
 EXC_POOL = [["ValueError", ["x"]], ["ValueError", ["\xe9"]], ["ValueError", []], ["KeyError", ["k"]],
-            ["RuntimeError", []], ["MyErr", ["a", "b"]], ["MyErr", ["x"]], ["KeyboardInterrupt", ["kb"]]]
+            ["RuntimeError", []], ["MyErr", ["a", "b"]], ["MyErr", ["x"]], ["KeyboardInterrupt", ["kb"]],
+            ["AbcChild", ["x"]]]
 CALL_POOL = [{"ret": 1}, {"ret": None}, {"raise": ["ValueError", ["x"]]}, {"raise": ["KeyError", ["k"]]},
-             {"raise": ["MyErr", ["a", "b"]]}, {"raise": ["RuntimeError", []]}]
+             {"raise": ["MyErr", ["a", "b"]]}, {"raise": ["RuntimeError", []]}, {"raise": ["AbcChild", ["x"]]}]
 CALL_BASE_POOL = [{"raise": ["KeyboardInterrupt", ["kb"]]}, {"raise": ["SystemExit", [3]]},
                   {"raise": ["GeneratorExit", []]}]
 WARNCALL_POOL = [{"ret": 1}, {"warn": [["DeprecationWarning", "old foo"]], "ret": 2},
@@ -490,7 +514,8 @@ def values_of(domain):
     if domain == "list":
         return [["list", x] for x in LIST_POOL]
     if domain == "dict":
-        return [["dict", x] for x in DICT_POOL]
+        return ([["dict", x] for x in DICT_POOL] + [["dict", x, "counter"] for x in DICT_POOL[:6]]
+                + [["dict", x, "defaultdict"] for x in DICT_POOL[:6]])
     if domain == "obj":
         return [["obj", x] for x in OBJ_POOL]
     if domain == "exc":
@@ -550,10 +575,13 @@ def leaves(domain, rng=None):
               ["MatchesException", ["instance", "MyErr", ["a", "b"]]],
               ["MatchesException", ["type_re", "ValueError", "x"]],
               ["MatchesException", ["type_re", "LookupError", ".k"]],
-              ["MatchesException", ["type", "KeyboardInterrupt"]], ["MatchesPredicate", "value_error"]]
+              ["MatchesException", ["type", "KeyboardInterrupt"]], ["MatchesPredicate", "value_error"],
+              ["MatchesException", ["type", "AbcErr"]], ["MatchesException", ["type_re", "AbcChild", "x"]],
+              ["MatchesException", ["types_nt", ["KeyError", "ValueError"]]],
+              ["MatchesException", ["types_nt", ["AbcErr", "RuntimeError"]]]]
     elif domain == "call":
         L = [["Raises", None], ["raises", "ValueError"], ["raises", "LookupError"], ["raises", "MyErr"],
-             ["raises", "KeyboardInterrupt"]]
+             ["raises", "KeyboardInterrupt"], ["raises", "AbcErr"]]
     elif domain == "warncall":
         L = [["Warnings", None], ["Warnings", ["HasLength", 1]], ["Warnings", ["HasLength", 2]],
              ["Warnings", ["Equals", []]]]
